@@ -18,7 +18,11 @@ Pure `ast` over every module of src/datamodel_code_generator. The analysis is de
     package — a process-wide cache hands the SAME object to every caller, so a result that is not immutable (dict, list, `Any`, an
     object) must be reviewed (Model/Determinism.reviewedCacheReturns).
 (e) listingSites: every call of a directory-listing primitive (`rglob`, `glob`, `iglob`, `iterdir`, `os.walk`, `os.fwalk`,
-    `os.listdir`, `os.scandir`) with whether it is the first argument of `sorted(` and with which `key=`.
+    `os.listdir`, `os.scandir`) with whether it is the first argument of `sorted(`, with which `key=` (source text) and the
+    SHAPE of that key: `natural` (no key: the total order of the entries themselves), `basename-then-path` (exactly
+    `lambda v: (v.name, v.as_posix())` for any parameter name v — the tuple's second component is the entry itself, so the key is
+    injective), `other` (anything else, including `lambda p: p.name` of the code before the repair of C08-basename, a key with
+    defaults / several parameters, a named function). Only the first two shapes are accepted by Props/C08.listingOK.
 (d) memoClasses / memoValueWrites: the package classes whose INSTANCES are shared process-wide — returned by a memoised function
     (`Import.from_full_path -> Import`) or bound to a module-level name (`IMPORT_DATE = Import.from_full_path(...)`) — with their
     declared fields, and every statement that stores to (or deletes) an attribute with one of those field names, or calls
@@ -117,6 +121,7 @@ class ListingSite:
     is_sorted: bool  # the call is the first argument of `sorted(`
     key: str        # source text of that sorted()'s key= argument ("" = the natural, total order of the entries)
     line: int
+    key_shape: str = "natural"   # natural | basename-then-path | other  (see key_shape())
 
 
 @dataclass
@@ -548,6 +553,33 @@ def _loads_of(trees: dict[str, ast.AST], name: str) -> int:
 LISTING_CALLS = {"rglob", "glob", "iglob", "iterdir", "walk", "fwalk", "listdir", "scandir"}
 
 
+def key_shape(key: ast.AST | None) -> str:
+    """`natural` for no key, `basename-then-path` for exactly `lambda v: (v.name, v.as_posix())` (one positional parameter, no
+    defaults, a 2-tuple of `v.name` and the argument-less call `v.as_posix()`), `other` for every other expression"""
+    if key is None:
+        return "natural"
+    if not isinstance(key, ast.Lambda):
+        return "other"
+    a = key.args
+    if a.posonlyargs or a.kwonlyargs or a.vararg or a.kwarg or a.defaults or a.kw_defaults or len(a.args) != 1:
+        return "other"
+    v = a.args[0].arg
+    body = key.body
+    if not (isinstance(body, ast.Tuple) and len(body.elts) == 2):
+        return "other"
+    first, second = body.elts
+
+    def is_v(x: ast.AST) -> bool:
+        return isinstance(x, ast.Name) and x.id == v
+
+    if not (isinstance(first, ast.Attribute) and first.attr == "name" and is_v(first.value)):
+        return "other"
+    if not (isinstance(second, ast.Call) and not second.args and not second.keywords and isinstance(second.func, ast.Attribute)
+            and second.func.attr == "as_posix" and is_v(second.func.value)):
+        return "other"
+    return "basename-then-path"
+
+
 def listing_sites() -> list[ListingSite]:
     out: list[ListingSite] = []
     for p in _files():
@@ -567,14 +599,21 @@ def listing_sites() -> list[ListingSite]:
                     if name in LISTING_CALLS:
                         par = parent.get(id(ch))
                         is_sorted = isinstance(par, ast.Call) and isinstance(par.func, ast.Name) and par.func.id == "sorted" and bool(par.args) and par.args[0] is ch
-                        key = ""
+                        key, shape = "", "natural"
                         if is_sorted:
+                            if len(par.args) > 1:   # sorted() takes one positional argument; anything else is not the call we know
+                                shape = "other"
                             for kw in par.keywords:
                                 if kw.arg == "key":
                                     key = ast.unparse(kw.value)
-                                elif kw.arg == "reverse":
+                                    shape = key_shape(kw.value) if shape != "other" else shape
+                                elif kw.arg == "reverse":   # the reversed order of a total order is as determined as the order
                                     pass
-                        out.append(ListingSite(file, ".".join(scope) or "<module>", ast.unparse(fn), is_sorted, key, ch.lineno))
+                                else:                       # `**kwargs` and the like
+                                    shape = "other"
+                        else:
+                            shape = "other"   # not sorted at all: there is no key to speak of
+                        out.append(ListingSite(file, ".".join(scope) or "<module>", ast.unparse(fn), is_sorted, key, ch.lineno, shape))
                 visit(ch, sc)
 
         visit(tree, [])
@@ -745,15 +784,16 @@ def generate() -> str:
         "def memoValueWrites : List (Nat × Nat × Nat × Nat) :=\n  [" + ",\n   ".join(rows) + "]\n"
     )
     out.append(
-        "structure ListingSite where\n  file : Nat\n  func : Nat\n  call : Nat\n  isSorted : Bool\n  key : Nat\n  deriving Repr, DecidableEq\n"
+        "structure ListingSite where\n  file : Nat\n  func : Nat\n  call : Nat\n  isSorted : Bool\n  key : Nat\n  keyShape : Nat\n  deriving Repr, DecidableEq\n"
     )
     rows = [
-        f"{{ file := {k(s.file)}, func := {k(s.func)}, call := {k(s.call)}, isSorted := {'true' if s.is_sorted else 'false'}, key := {k(s.key)} }}"
+        f"{{ file := {k(s.file)}, func := {k(s.func)}, call := {k(s.call)}, isSorted := {'true' if s.is_sorted else 'false'}, key := {k(s.key)}, keyShape := {k(s.key_shape)} }}"
         for s in listing_sites()
     ]
     out.append(
         "/-- every call of a directory-listing primitive (rglob/glob/iglob/iterdir/walk/fwalk/listdir/scandir): is it the first\n"
-        "argument of `sorted(`, and with which `key=` (empty = natural total order of the entries) -/\n"
+        "argument of `sorted(`, with which `key=` (source text; empty = natural total order of the entries) and the shape of that\n"
+        "key as classified by the translator (natural | basename-then-path | other) -/\n"
         "def listingSites : List ListingSite :=\n  [" + ",\n   ".join(rows) + "]\n"
     )
     out.append("end Dcg.Gen.SetSites")
